@@ -2,6 +2,7 @@
    satisfies, provenance of every stored binding, totality of registration on lexed templates. *)
 From Larking Require Import Base.GoSem Model.Lexer Model.Trie Model.Match Spec.Grammar Spec.Route
   Proofs.LexerProofs Proofs.MatchProofs.
+From Coq Require Import Sorting.Sorted.
 Local Open Scope N_scope.
 
 Lemma str_eqb_eq a b : str_eqb a b = true <-> a = b.
@@ -187,3 +188,375 @@ Proof.
       apply (IH f c c' es i Hk Eu); auto. intros E. apply Hne. unfold keys in *. cbn [map edge_key]. rewrite E0. now f_equal.
     + now rewrite find_set_neq.
 Qed.
+
+(* ---- Go's string order on rune lists ---- *)
+Lemma str_ltb_irrefl a : str_ltb a a = false.
+Proof. induction a as [|x a IH]; cbn; auto. rewrite N.ltb_irrefl. exact IH. Qed.
+Lemma str_ltb_trans a : forall b c, str_ltb a b = true -> str_ltb b c = true -> str_ltb a c = true.
+Proof.
+  induction a as [|x a IH]; intros [|y b] [|z c]; cbn; try discriminate; auto.
+  destruct (N.ltb_spec x y), (N.ltb_spec y x), (N.ltb_spec y z), (N.ltb_spec z y), (N.ltb_spec x z), (N.ltb_spec z x);
+    try lia; try discriminate; auto.
+  intros G1 G2. eapply IH; eauto.
+Qed.
+Lemma str_ltb_total a : forall b, a <> b -> str_ltb a b = false -> str_ltb b a = true.
+Proof.
+  induction a as [|x a IH]; intros [|y b]; cbn; try discriminate; auto; try contradiction.
+  destruct (N.ltb_spec x y), (N.ltb_spec y x); try lia; try discriminate; auto.
+  intros Hne Hf. assert (x = y) by lia. subst y. apply IH; auto. congruence.
+Qed.
+Lemma str_ltb_neq a b : str_ltb a b = true -> a <> b.
+Proof. intros H E. subst. now rewrite str_ltb_irrefl in H. Qed.
+
+(* ---- the structural invariant of built tries ---- *)
+Definition vname (pn : list token * node) : str := spell (fst pn).
+Definition names_sorted (l : list (list token * node)) : Prop :=
+  StronglySorted (fun a b => str_ltb a b = true) (map vname l).
+
+Inductive WFn : nat -> node -> Prop :=
+| WFn_intro k segs vars meths mall :
+    (forall key c, In (key, c) segs -> WFn k c) ->
+    (forall pat c, In (pat, c) vars -> forallb pat_tok_ok pat = true /\ WFn (S k) c) ->
+    names_sorted vars ->
+    (forall v m, In (v, m) meths -> length (m_vars m) = k) ->
+    (forall m, mall = Some m -> length (m_vars m) = k) ->
+    WFn k (Node segs vars meths mall).
+
+Lemma WFn_empty k : WFn k empty_node.
+Proof. constructor; cbn; try contradiction; try constructor; try discriminate. Qed.
+
+Lemma in_set_assoc {A} key (c : A) k v l : In (key, c) (set_assoc k v l) -> (key = k /\ c = v) \/ In (key, c) l.
+Proof.
+  induction l as [|[k' v'] l IH]; cbn.
+  - intros [E|[]]. inversion E. auto.
+  - destruct (str_eqb k' k) eqn:E; cbn.
+    + apply str_eqb_eq in E. subst k'. intros [H|H]; [inversion H; auto|auto].
+    + intros [H|H]; [auto|]. destruct (IH H) as [X|X]; auto.
+Qed.
+
+Lemma in_set_var p c pat n l :
+  In (p, c) (set_var pat n l) -> (c = n /\ (p = pat \/ exists c0, In (p, c0) l)) \/ In (p, c) l.
+Proof.
+  induction l as [|[p0 n0] l IH]; cbn.
+  - intros [E|[]]. inversion E. auto.
+  - destruct (str_eqb (spell p0) (spell pat)) eqn:E; cbn.
+    + intros [H|H]; [inversion H; subst; left; split; auto; right; exists n0; now left|auto].
+    + destruct (str_ltb (spell pat) (spell p0)); cbn.
+      * intros [H|[H|H]]; [inversion H; auto|auto|auto].
+      * intros [H|H]; [auto|]. destruct (IH H) as [[X [Y|[c0 Y]]]|X]; auto. left. split; auto. right. exists c0. now right.
+Qed.
+
+Lemma set_var_names pat n l :
+  names_sorted l ->
+  names_sorted (set_var pat n l) /\
+  (forall x, In x (map vname (set_var pat n l)) -> x = spell pat \/ In x (map vname l)).
+Proof.
+  unfold names_sorted. induction l as [|[p0 n0] l IH]; intros Hs; cbn.
+  - split; [repeat constructor|]. intros x [<-|[]]. now left.
+  - inversion Hs as [|a l' Hs' Hall]; subst.
+    destruct (str_eqb (spell p0) (spell pat)) eqn:E; cbn.
+    + split; [constructor; auto|]. intros x H. right. exact H.
+    + destruct (str_ltb (spell pat) (spell p0)) eqn:El; cbn.
+      * split.
+        -- constructor; [constructor; auto|]. constructor; [exact El|].
+           eapply Forall_impl; [|exact Hall]. intros y Hy. eapply str_ltb_trans; eauto.
+        -- intros x [<-|H]; [now left|right; exact H].
+      * destruct (IH Hs') as [IH1 IH2]. split.
+        -- constructor; [exact IH1|]. apply Forall_forall. intros x Hx.
+           destruct (IH2 x Hx) as [->|Hx'].
+           ++ change (str_ltb (spell p0) (spell pat) = true). apply str_ltb_total; auto. apply str_eqb_neq in E. congruence.
+           ++ rewrite Forall_forall in Hall. now apply Hall.
+        -- intros x [<-|H]; [right; now left|]. destruct (IH2 x H); auto; right; now right.
+Qed.
+
+Lemma sorted_find pat c l : names_sorted l -> In (pat, c) l -> find_var (spell pat) l = Some c.
+Proof.
+  unfold names_sorted. induction l as [|[p0 n0] l IH]; intros Hs Hin; [contradiction|].
+  inversion Hs as [|a l' Hs' Hall]; subst. cbn.
+  destruct Hin as [E|Hin].
+  - inversion E; subst. now rewrite str_eqb_refl.
+  - destruct (str_eqb (spell p0) (spell pat)) eqn:E.
+    + exfalso. apply str_eqb_eq in E. rewrite Forall_forall in Hall.
+      assert (H : str_ltb (vname (p0, n0)) (vname (pat, c)) = true) by (apply Hall; now apply in_map).
+      change (str_ltb (spell p0) (spell pat) = true) in H. rewrite E, str_ltb_irrefl in H. discriminate.
+    + now apply IH.
+Qed.
+
+Definition edge_ok (e : edge) : Prop := match e with ELit _ => True | EVar pat => forallb pat_tok_ok pat = true end.
+
+Lemma upd_WFn es0 : forall f nd nd' k,
+  WFn k nd -> Forall edge_ok es0 ->
+  (forall leaf leaf', WFn (k + nvars es0) leaf -> f leaf = Ok leaf' -> WFn (k + nvars es0) leaf') ->
+  upd es0 f nd = Ok nd' -> WFn k nd'.
+Proof.
+  induction es0 as [|[key|pat] es0 IH]; intros f nd nd' k Hw Hok Hf H; cbn in H.
+  - cbn [nvars] in Hf. rewrite Nat.add_0_r in Hf. apply (Hf nd nd'); auto.
+  - destruct (upd es0 f _) as [c'| | |] eqn:Eu; try discriminate. inversion H; subst nd'. clear H.
+    inversion Hok; subst. inversion Hw as [k0 segs vars meths mall W1 W2 W3 W4 W5]; subst. cbn [n_segs n_vars n_meths n_mall] in *.
+    assert (Hc : WFn k c').
+    { eapply IH; [| eassumption | exact Hf | exact Eu].
+      destruct (assoc key segs) as [c|] eqn:Ea; [|apply WFn_empty]. apply (W1 key c). now apply assoc_in. }
+    constructor; auto. intros key2 c2 Hin. destruct (in_set_assoc _ _ _ _ _ Hin) as [[-> ->]|Hin']; [exact Hc|eauto].
+  - destruct (upd es0 f _) as [c'| | |] eqn:Eu; try discriminate. inversion H; subst nd'. clear H.
+    inversion Hok as [|e l Hpat Hok']; subst. cbn in Hpat.
+    inversion Hw as [k0 segs vars meths mall W1 W2 W3 W4 W5]; subst. cbn [n_segs n_vars n_meths n_mall] in *.
+    assert (Hc : WFn (S k) c').
+    { eapply IH; [| exact Hok' | | exact Eu].
+      - destruct (find_var (spell pat) vars) as [c|] eqn:Ea; [|apply WFn_empty].
+        clear -Ea W2. induction vars as [|[p0 n0] vars IHv]; cbn in Ea; [discriminate|].
+        destruct (str_eqb (spell p0) (spell pat)); [inversion Ea; subst; apply (W2 p0 c); now left|].
+        apply IHv; auto. intros p1 c1 Hin. apply W2. now right.
+      - intros leaf leaf' HL HF. cbn [nvars] in Hf. replace (S k + nvars es0)%nat with (k + S (nvars es0))%nat in * by lia. eauto. }
+    constructor; auto.
+    + intros p c Hin. destruct (in_set_var _ _ _ _ _ Hin) as [[-> [->|[c0 Hin0]]]|Hin'].
+      * split; auto.
+      * split; auto. now destruct (W2 p c0 Hin0).
+      * eauto.
+    + now apply set_var_names.
+Qed.
+
+(* the invariant search relies on follows from the structural one; and on a structurally well-formed
+   trie the In-based reachability of search is the name-based walk of upd *)
+Lemma Reach_walk nd es nd' : Reach nd es nd' -> forall k, WFn k nd -> walk_to es nd = Some nd' /\ WFn (k + nvars es) nd'.
+Proof.
+  induction 1 as [nd|nd key c es nd' Ha HR IH|nd pat c es nd' Hin HR IH]; intros k Hw.
+  - cbn. split; auto. now rewrite Nat.add_0_r.
+  - inversion Hw as [k0 segs vars meths mall W1 W2 W3 W4 W5]; subst. cbn [n_segs] in Ha. cbn [walk_to n_segs nvars]. rewrite Ha.
+    apply IH. apply (W1 key c). now apply assoc_in.
+  - inversion Hw as [k0 segs vars meths mall W1 W2 W3 W4 W5]; subst. cbn [n_vars] in Hin. cbn [walk_to n_vars nvars].
+    rewrite (sorted_find _ _ _ W3 Hin). destruct (W2 pat c Hin) as [_ Wc].
+    destruct (IH (S k) Wc) as [A B]. split; auto. replace (k + S (nvars es))%nat with (S k + nvars es)%nat by lia. exact B.
+Qed.
+
+Lemma WFn_TrieInv k nd : WFn k nd -> TrieInv nd k.
+Proof.
+  intros Hw. split.
+  - intros es nd' verb m HR HB. destruct (Reach_walk _ _ _ HR k Hw) as [_ W].
+    inversion W as [k0 segs vars meths mall W1 W2 W3 W4 W5]; subst. unfold bound_at in HB. cbn [n_meths n_mall] in HB.
+    destruct (assoc verb meths) as [m0|] eqn:Ea.
+    + inversion HB; subst. apply (W4 verb m). now apply assoc_in.
+    + now apply W5.
+  - intros es nd' pat c HR Hin. destruct (Reach_walk _ _ _ HR k Hw) as [_ W].
+    inversion W as [k0 segs vars meths mall W1 W2 W3 W4 W5]; subst. cbn [n_vars] in Hin. now destruct (W2 pat c Hin).
+Qed.
+
+(* ---- the token walk of addRule on lexed templates ---- *)
+Section Compile.
+Variables isLetter isNumber : N -> bool.
+Variable resolves : str -> list str -> bool.
+Notation compile := (compile resolves).
+Notation PSeg := (PSeg isLetter isNumber).
+Notation PSegs := (PSegs isLetter isNumber).
+Notation Seg := (Seg isLetter isNumber).
+Notation Segs := (Segs isLetter isNumber).
+Notation FieldPath := (FieldPath isLetter isNumber).
+Notation Tmpl := (Tmpl isLetter isNumber).
+
+Lemma PSeg_toks_ok ts b : PSeg ts b -> forallb pat_tok_ok ts = true /\ Forall (fun t => is TVarEnd t = false) ts.
+Proof. intros [v Hv| |]; split; repeat constructor. Qed.
+Lemma PSegs_toks_ok ts b : PSegs ts b -> forallb pat_tok_ok ts = true /\ Forall (fun t => is TVarEnd t = false) ts.
+Proof.
+  induction 1 as [ts b G|ts rest b G HS IH].
+  - now apply (PSeg_toks_ok ts b).
+  - destruct (PSeg_toks_ok _ _ G) as [A1 A2]. destruct IH as [B1 B2]. split.
+    + rewrite forallb_app, A1. cbn. exact B1.
+    + apply Forall_app. split; auto.
+Qed.
+
+Lemma until_varend_app ps rest :
+  Forall (fun t => is TVarEnd t = false) ps -> until_varend (ps ++ tClose :: rest) = Some (ps, rest).
+Proof. induction 1 as [|t ps Ht Hps IH]; cbn; [reflexivity|]. now rewrite Ht, IH. Qed.
+
+Lemma field_keys_tail tail : DotTail isLetter isNumber tail -> forall acc rest,
+  match rest with t :: _ :: _ => is TDot t = false | _ => True end ->
+  exists names, field_keys acc (tail ++ rest) = (acc ++ names, rest).
+Proof.
+  induction 1 as [|v tail Hv Ht IH]; intros acc rest Hr.
+  - exists []. rewrite app_nil_r. cbn [app].
+    destruct rest as [|t [|t2 r]]; cbn; auto. now rewrite Hr.
+  - destruct (IH (acc ++ [v]) rest Hr) as [names E]. exists (v :: names).
+    cbn [app field_keys]. change (is TDot tDot) with true. cbn [tval]. rewrite E. now rewrite <- app_assoc.
+Qed.
+
+Definition seg_step (f : nat) (mid : str) (ts cont : list token) (e : edge) (vf : list (list str)) : Prop :=
+  compile (S f) mid (tSlash :: ts ++ cont) = Err EInvalid \/
+  compile (S f) mid (tSlash :: ts ++ cont) = (do r <- compile f mid cont; Ok (e :: fst r, vf ++ snd r)).
+
+Lemma compile_seg ts b : Seg ts b -> forall f mid cont,
+  match cont with t :: _ :: _ => is TDot t = false | _ => True end ->
+  exists e vf, edge_ok e /\ length vf = nvars [e] /\ seg_step f mid ts cont e vf.
+Proof.
+  intros [ts' b' G|fp Hfp|fp ps b' Hfp Hps] f mid cont Hc.
+  - destruct G as [v Hv| |].
+    + exists (ELit ([47] ++ v)), []. repeat split. right. reflexivity.
+    + exists (EVar [tStar]), [[]]. repeat split. right. reflexivity.
+    + exists (EVar [tStarStar]), [[]]. repeat split. right. reflexivity.
+  - destruct (tail_of_FieldPath _ _ _ Hfp) as (v & tail & -> & Hv & Ht).
+    assert (Hr : match [tClose] ++ cont with t :: _ :: _ => is TDot t = false | _ => True end) by (destruct cont; cbn; auto).
+    destruct (field_keys_tail tail Ht [v] ([tClose] ++ cont) Hr) as [names E].
+    exists (EVar [Tok TStar [42]]), [[v] ++ names]. split; [reflexivity|]. split; [reflexivity|].
+    unfold seg_step. cbn [compile app ttyp tSlash tOpen tval]. rewrite <- app_assoc. rewrite E.
+    cbn [app ttyp tClose]. destruct (resolves mid (v :: names)); [right; reflexivity|left; reflexivity].
+  - destruct (tail_of_FieldPath _ _ _ Hfp) as (v & tail & -> & Hv & Ht).
+    destruct (PSegs_toks_ok _ _ Hps) as [P1 P2].
+    assert (Hr : match (tEq :: ps ++ [tClose]) ++ cont with t :: _ :: _ => is TDot t = false | _ => True end).
+    { cbn. destruct (ps ++ [tClose]) eqn:E; cbn; auto. destruct cont; auto. }
+    destruct (field_keys_tail tail Ht [v] ((tEq :: ps ++ [tClose]) ++ cont) Hr) as [names E].
+    exists (EVar ps), [[v] ++ names]. split; [exact P1|]. split; [reflexivity|].
+    unfold seg_step. cbn [compile app ttyp tSlash tOpen tval].
+    replace ((tail ++ tEq :: ps ++ [tClose]) ++ cont) with (tail ++ (tEq :: ps ++ [tClose]) ++ cont) by (now rewrite <- app_assoc).
+    rewrite E. cbn [app ttyp tEq]. rewrite <- app_assoc. cbn [app]. rewrite (until_varend_app ps cont P2).
+    destruct (resolves mid (v :: names)); [right; reflexivity|left; reflexivity].
+Qed.
+
+Definition good_result (r : outcome (list edge * list (list str))) : Prop :=
+  match r with
+  | Ok (es, vfs) => length vfs = nvars es /\ Forall edge_ok es
+  | Err _ => True
+  | _ => False
+  end.
+
+Definition tail_ok (tail : list token) : Prop := tail = [tEOF] \/ exists v, tail = [tColon; Tok TLiteral v; tEOF].
+
+Lemma compile_tail f mid tail : tail_ok tail -> good_result (compile (S f) mid tail).
+Proof. intros [->|[v ->]]; cbn; repeat split; repeat constructor. Qed.
+
+Lemma compile_segs_good ss b : Segs ss b -> forall fuel mid tail,
+  tail_ok tail -> (length ss + length tail < fuel)%nat -> good_result (compile fuel mid (tSlash :: ss ++ tail)).
+Proof.
+  induction 1 as [ts b G|ts rest b G HS IH]; intros fuel mid tail Ht Hf; (destruct fuel as [|f]; [lia|]).
+  - assert (Hc : match tail with t :: _ :: _ => is TDot t = false | _ => True end) by (destruct Ht as [->|[v ->]]; cbn; auto).
+    destruct (compile_seg ts b G f mid tail Hc) as (e & vf & He & Hv & [E|E]); rewrite E; [exact I|].
+    destruct f as [|f']; [destruct Ht as [->|[v ->]]; cbn in Hf; lia|].
+    pose proof (compile_tail f' mid tail Ht) as Hg.
+    destruct (compile (S f') mid tail) as [[es vfs]| | |]; cbn in *; auto.
+    destruct Hg as [A B]. split; [rewrite app_length, A; cbn in Hv; destruct e; cbn in *; lia|constructor; auto].
+  - rewrite <- app_assoc. cbn [app].
+    assert (Hc : match tSlash :: rest ++ tail with t :: _ :: _ => is TDot t = false | _ => True end)
+      by (cbn; destruct (rest ++ tail); auto).
+    destruct (compile_seg ts false G f mid (tSlash :: rest ++ tail) Hc) as (e & vf & He & Hv & [E|E]); rewrite E; [exact I|].
+    rewrite app_length in Hf. cbn [length] in Hf.
+    assert (Hg : good_result (compile f mid (tSlash :: rest ++ tail))) by (apply IH; auto; lia).
+    destruct (compile f mid (tSlash :: rest ++ tail)) as [[es vfs]| | |]; cbn in *; auto.
+    destruct Hg as [A B]. split; [rewrite app_length, A; cbn in Hv; destruct e; cbn in *; lia|constructor; auto].
+Qed.
+
+Theorem compile_tmpl toks mid : Tmpl toks -> good_result (compile (S (length toks)) mid toks).
+Proof.
+  intros [ss b HS|ss b v HS Hv].
+  - apply (compile_segs_good ss b HS); [now left|]. cbn [length]. rewrite app_length. cbn. lia.
+  - apply (compile_segs_good ss b HS); [right; eauto|]. cbn [length]. rewrite app_length. cbn. lia.
+Qed.
+End Compile.
+
+(* ---- registration: what the leaf update does ---- *)
+Definition stored (i : list (str * minfo) * option minfo) (key : str) (m : minfo) : Prop :=
+  (key = star_verb /\ snd i = Some m) \/ assoc key (fst i) = Some m.
+
+Section Register.
+Variables isLetter isNumber : N -> bool.
+Variable resolves body_ok resp_ok : str -> list str -> bool.
+Notation leaf := (leaf resolves body_ok resp_ok).
+Notation add_binding := (add_binding resolves body_ok resp_ok isLetter isNumber).
+Notation compile := (compile resolves).
+Notation lex_template := (lex_template isLetter isNumber).
+
+Lemma assoc_app_none {A} k (l : list (str * A)) k2 v : assoc k l = None -> assoc k (l ++ [(k2, v)]) = if str_eqb k2 k then Some v else None.
+Proof. induction l as [|[k' v'] l IH]; cbn; auto. destruct (str_eqb k' k); [discriminate|auto]. Qed.
+Lemma assoc_app_some {A} k (l : list (str * A)) l2 v : assoc k l = Some v -> assoc k (l ++ l2) = Some v.
+Proof. induction l as [|[k' v'] l IH]; cbn; [discriminate|]. destruct (str_eqb k' k); auto. Qed.
+
+Lemma leaf_keeps mid b vfs : keeps_children (leaf mid b vfs).
+Proof.
+  intros nd nd' H. unfold Trie.leaf in H.
+  destruct (match n_mall nd with Some y => conflict mid y | None => false end); [discriminate|].
+  destruct (str_eqb (b_verb b) star_verb).
+  - destruct (existsb _ _); [discriminate|]. destruct (n_mall nd).
+    + inversion H; auto.
+    + destruct (_ && _); [|discriminate]. cbn in H. inversion H; auto.
+  - destruct (assoc (b_verb b) (n_meths nd)).
+    + destruct (conflict mid m); [discriminate|]. inversion H; auto.
+    + destruct (_ && _); [|discriminate]. cbn in H. inversion H; auto.
+Qed.
+
+Lemma leaf_benign mid b vfs nd : benign (leaf mid b vfs nd).
+Proof.
+  unfold Trie.leaf.
+  destruct (match n_mall nd with Some y => conflict mid y | None => false end); cbn; auto.
+  destruct (str_eqb (b_verb b) star_verb).
+  - destruct (existsb _ _); cbn; auto. destruct (n_mall nd); cbn; auto. destruct (_ && _); cbn; auto.
+  - destruct (assoc (b_verb b) (n_meths nd)).
+    + destruct (conflict mid m); cbn; auto.
+    + destruct (_ && _); cbn; auto.
+Qed.
+
+(* what is stored at the leaf afterwards: what was there, plus possibly this binding; nothing is lost;
+   and all of it belongs to this method *)
+Lemma conflict_id mid y : conflict mid y = false -> m_id y = mid.
+Proof. unfold conflict. intros Hy. apply negb_false_iff in Hy. now apply str_eqb_eq in Hy. Qed.
+
+Lemma meths_owned mid meths :
+  existsb (fun kv : str * minfo => conflict mid (snd kv)) meths = false ->
+  forall key m, assoc key meths = Some m -> m_id m = mid.
+Proof.
+  intros He key m Ha. apply assoc_in in Ha. apply conflict_id.
+  destruct (conflict mid m) eqn:Ec; auto.
+  assert (existsb (fun kv : str * minfo => conflict mid (snd kv)) meths = true)
+    by (apply existsb_exists; exists (key, m); auto). congruence.
+Qed.
+
+Definition Owned (mid : str) (nd : node) : Prop := forall key m, stored (info nd) key m -> m_id m = mid.
+
+Lemma assoc_snoc {A} key (l : list (str * A)) k2 v :
+  assoc key (l ++ [(k2, v)]) = match assoc key l with Some x => Some x | None => if str_eqb k2 key then Some v else None end.
+Proof. induction l as [|[k' v'] l IH]; cbn; auto. destruct (str_eqb k' key); auto. Qed.
+
+Lemma leaf_spec mid b vfs nd nd' :
+  leaf mid b vfs nd = Ok nd' ->
+  (forall key m, stored (info nd') key m ->
+     stored (info nd) key m \/ (key = b_verb b /\ m = Build_minfo mid vfs (b_body b) (b_resp b))) /\
+  (forall key m, stored (info nd) key m -> stored (info nd') key m) /\
+  (exists m, stored (info nd') (b_verb b) m /\ m_id m = mid).
+Proof.
+  intros H. unfold Trie.leaf in H. unfold stored, info.
+  destruct (n_mall nd) as [y|] eqn:Emall;
+  [destruct (conflict mid y) eqn:Ec; [discriminate|]|];
+  (destruct (str_eqb (b_verb b) star_verb) eqn:Ev;
+   [apply str_eqb_eq in Ev; destruct (existsb _ (n_meths nd)) eqn:Ee; [discriminate|] |
+    destruct (assoc (b_verb b) (n_meths nd)) as [y0|] eqn:Ea; [destruct (conflict mid y0) eqn:Ec0; [discriminate|]|]]);
+  try (destruct (_ && _); [|discriminate]; cbn [bind] in H);
+  inversion H; subst nd'; clear H; cbn [n_meths n_mall fst snd].
+  all: (split; [|split]).
+  all: try (intros key m; rewrite ?assoc_snoc; rewrite ?Emall; destruct (assoc key (n_meths nd)) eqn:Eak;
+            try (destruct (str_eqb (b_verb b) key) eqn:Ek; try apply str_eqb_eq in Ek); intuition (try congruence); fail).
+  - exists y. split; [left; auto|now apply conflict_id].
+  - exists y0. split; [right; auto|now apply conflict_id].
+  - eexists. split; [right; rewrite assoc_snoc, Ea, str_eqb_refl; reflexivity|reflexivity].
+  - eexists. split; [left; split; [exact Ev|reflexivity]|reflexivity].
+  - exists y0. split; [right; auto|now apply conflict_id].
+  - eexists. split; [right; rewrite assoc_snoc, Ea, str_eqb_refl; reflexivity|reflexivity].
+Qed.
+
+(* a binding of another method under an overlapping verb makes the leaf refuse *)
+Definition overlap (k v : str) : Prop := k = v \/ k = star_verb \/ v = star_verb.
+Lemma leaf_rejects_conflict mid b vfs nd key m :
+  assoc star_verb (n_meths nd) = None ->
+  stored (info nd) key m -> m_id m <> mid -> overlap key (b_verb b) -> exists e, leaf mid b vfs nd = Err e.
+Proof.
+  intros Hns Hst Hne Hov. unfold Trie.leaf.
+  assert (Hc : conflict mid m = true).
+  { unfold conflict. apply negb_true_iff. apply str_eqb_neq. exact Hne. }
+  unfold stored, info in Hst. cbn [fst snd] in Hst.
+  destruct Hst as [[Hk Hs]|Ha].
+  - rewrite Hs, Hc. eauto.
+  - destruct (n_mall nd) as [y|]; [destruct (conflict mid y); [eauto|]|].
+    all: destruct (str_eqb (b_verb b) star_verb) eqn:Ev.
+    all: try (assert (He : existsb (fun kv : str * minfo => conflict mid (snd kv)) (n_meths nd) = true)
+               by (apply existsb_exists; exists (key, m); split; [now apply assoc_in|exact Hc]); rewrite He; eauto; fail).
+    all: destruct Hov as [Hov|[Hov|Hov]]; try (subst key).
+    all: try (rewrite Ha, Hc; eauto; fail).
+    all: try (apply str_eqb_neq in Ev; contradiction).
+    all: congruence.
+Qed.
+
+End Register.
